@@ -30,6 +30,9 @@ def check(ctx):
     ctx.rule("C18-C", "document style sheets are collected from the whole document: the extraction walk descends into every "
              "element and treats only <style> specially (a sheet in the body counts like one in the head)")
     ctx.guard("C18-C", rule_c)
+    ctx.rule("C18-D", "declarations of a ::before / ::after rule never land on the element itself: the element's own computed "
+             "style is the merge target exactly when the rule has no pseudo-element")
+    ctx.guard("C18-D", rule_d)
 
 
 BUILDERS = ("RenderNode::new", "RenderNode::new_styled", "pending", "pending_noempty", "table_to_render_tree",
@@ -309,3 +312,43 @@ def rule_c(ctx):
               "an element arm of the extraction walk returns Nothing: style elements below such an element are never read")
     ctx.check(bool([1 for x in region if b.term(x)["k"] == "call" and ends(callee_def(b.term(x)), "pending")]), "C18-C",
               "style-extraction:descends-into-children", b.span, b.id, "")
+
+
+def rule_d(ctx):
+    F = ctx.facts
+    if not any(f["name"] == "use_doc_css" for f in F.adt("HtmlContext")["variants"][0]["fields"]):
+        ctx.info("C18-D", "no stylesheet support in this configuration (css feature off)")
+        return
+    b = F.one("css::StyleData::merge_computed_style")
+    mus = b.calls(lambda cd, t: callee_method(t) == "maybe_update")
+    require(bool(mus), "merge_computed_style must call maybe_update")
+    targets = set()
+    for bb, t in mus:
+        pl = direct_place(b, t["args"][0])
+        if pl is not None:
+            targets.add(pl["l"])
+    if not ctx.check(len(targets) == 1, "C18-D", "merge:one-target-variable", b.span, b.id, "targets %s" % sorted(targets)):
+        return
+    T = targets.pop()
+    n_self = 0
+    for r in b.defs()[T]:
+        if r[0] != "stmt" or r[1] not in b.reachable():
+            continue
+        rv = r[3].get("rv") or {}
+        src = rv.get("use") or rv.get("ref")
+        c = b.canon(src) if src is not None else "?"
+        if c.replace("&mut ", "").replace("&", "").strip("*") != "arg1":
+            continue  # a pseudo-element's own style (get_or_insert_with on content_before / content_after)
+        n_self += 1
+        conds = []
+        for (a, s) in b.cdeps_transitive(r[1]):
+            neg, sc = b.switch_source(a)
+            tt = b.term(a)
+            if sc[0] == "discr" and "PseudoElement" in str(sc[1].get("ty", "")) and "Option" in str(sc[1].get("ty", "")):
+                vals = sorted(v for v, tb in tt["targets"] if tb == s)
+                conds.append("pseudo=None" if vals == [0] and tt["otherwise"] != s else "pseudo∈%s%s" % (vals, "+otherwise" if tt["otherwise"] == s else ""))
+            else:
+                conds.append("%s@%s" % (sc[0], tt["span"]))
+        ctx.check(conds == ["pseudo=None"], "C18-D", "merge:element-style-only-without-pseudo-element#%d" % n_self, r[3]["span"], b.id,
+                  "the element's own style becomes the merge target under %s; a `x::before {display:none}` rule would hide x itself" % conds)
+    ctx.floor("C18-D", "definitions of the merge target as the element's own style", n_self, 1)
